@@ -105,8 +105,8 @@ COMPONENTS = {
     "us": ["year", "month", "day", "hour", "minute", "second", "microsecond"],
 }
 DOMAIN = {"year": [1, 2000, 9999], "month": [1, 2, 12], "day": [1, 29, 31], "hour": [0, 23],
-          "minute": [0, 59], "second": [0, 59], "microsecond": [0, 999999]}
-DOMAIN_MS = dict(DOMAIN, microsecond=[0, 999000])
+          "minute": [0, 59], "second": [0, 59, 1], "microsecond": [0, 100, 999999]}   # (1 s, 0 us) and (0 s, 100 us): 1 * 100 + 0 == 0 * 100 + 100
+DOMAIN_MS = dict(DOMAIN, microsecond=[0, 1000, 999000])
 FORMS = ["list", "vector", "ndarray"]
 
 STRINGS = ["", "a", "ab1", "aXa", " ", "é"]
